@@ -1,0 +1,63 @@
+//go:build verif
+
+// Contracts for package xy, read by /verif's govc. Comment-only.
+package xy
+
+// ---------------------------------------------------------------------------
+// C15: 2D distances over the reals. pd2(p, a, b, t) is the squared distance from p to the point
+// a + t(b-a); a result d is the point-segment distance iff d >= 0, d^2 <= pd2(t) for every t in
+// [0,1], and d^2 == pd2(t*) for some t* in [0,1] (the witness tproj).
+
+//@ func DistanceFromPointToLine
+//@   floats real
+//@   requires len(p) >= 2 && len(lineStart) >= 2 && len(lineEnd) >= 2
+//@   ensures [nonneg] res >= 0.0
+//@   ensures [lower] forall t float64 :: 0.0 <= t && t <= 1.0 ==> res * res <= pd2(p[0], p[1], lineStart[0], lineStart[1], lineEnd[0], lineEnd[1], t)
+//@   ensures [attained] res * res == psd2(p[0], p[1], lineStart[0], lineStart[1], lineEnd[0], lineEnd[1])
+//@   modifies nothing
+
+//@ func Distance
+//@   floats real
+//@   requires len(c1) >= 2 && len(c2) >= 2
+//@   ensures res >= 0.0 && res * res == (c1[0]-c2[0])*(c1[0]-c2[0]) + (c1[1]-c2[1])*(c1[1]-c2[1])
+//@   modifies nothing
+
+// distance to the infinite line through two distinct points: smaller than or equal to the distance to
+// every point of the line, attained at the foot of the perpendicular
+//@ func PerpendicularDistanceFromPointToLine
+//@   floats real
+//@   requires len(p) >= 2 && len(lineStart) >= 2 && len(lineEnd) >= 2
+//@   requires lineStart[0] != lineEnd[0] || lineStart[1] != lineEnd[1]
+//@   ensures [nonneg] res >= 0.0
+//@   ensures [lower] forall t float64 :: res * res <= pd2(p[0], p[1], lineStart[0], lineStart[1], lineEnd[0], lineEnd[1], t)
+//@   ensures [attained] res * res == pd2(p[0], p[1], lineStart[0], lineStart[1], lineEnd[0], lineEnd[1], ((p[0]-lineStart[0])*(lineEnd[0]-lineStart[0]) + (p[1]-lineStart[1])*(lineEnd[1]-lineStart[1])) / ((lineEnd[0]-lineStart[0])*(lineEnd[0]-lineStart[0]) + (lineEnd[1]-lineStart[1])*(lineEnd[1]-lineStart[1])))
+//@   modifies nothing
+
+//@ func DistanceFromPointToLineString
+//@   floats real
+//@   lemmas mulCancel, mulCancel2, mulNonneg
+//@   requires len(p) >= 2 && strideOf(layout) >= 2 && whole(len(line), strideOf(layout))
+//@   panics when len(line) < 2
+//@   ensures [nonneg] res >= 0.0
+//@   ensures [min] res * res == lsd2(p[0], p[1], cells(line), off(line), strideOf(layout), cnt(len(line), strideOf(layout)) - 1)
+//@   modifies nothing
+//@   loop 1:
+//@     ghost m int = 0 step m + 1
+//@     invariant m >= 0 && i == mul(m, stride) && stride == strideOf(layout) && (m == 0 || i < len(line))
+//@     invariant minDistance >= 0.0 && minDistance * minDistance == lsd2(p[0], p[1], cells(line), off(line), stride, m)
+//@   at loop1.end: assert m >= 1 && mul(m, stride) == mul(m-1, stride) + stride && i == mul(m, stride)
+//@   at loop1.end: assert lsd2(p[0], p[1], cells(line), off(line), stride, m) == fmin(lsd2(p[0], p[1], cells(line), off(line), stride, m-1), psd2(p[0], p[1], line[i-stride], line[i-stride+1], line[i], line[i+1]))
+
+// segment to segment: zero-length segments reduce to point-segment; crossing segments are at distance 0
+// (lemma ssCrossMeets: the crossing parameters give a common point); otherwise the result is the minimum
+// of the four endpoint-segment distances (lemma ssBoundaryMin: that is the minimum over all pairs of points).
+//@ func DistanceFromLineToLine
+//@   floats real
+//@   lemmas ssBoxesDisjointAuto
+//@   requires len(line1Start) >= 2 && len(line1End) >= 2 && len(line2Start) >= 2 && len(line2End) >= 2
+//@   ensures [nonneg] res >= 0.0
+//@   ensures [degenerate1] line1Start[0] == line1End[0] && line1Start[1] == line1End[1] ==> res * res == psd2(line1Start[0], line1Start[1], line2Start[0], line2Start[1], line2End[0], line2End[1])
+//@   ensures [degenerate2] !(line1Start[0] == line1End[0] && line1Start[1] == line1End[1]) && line2Start[0] == line2End[0] && line2Start[1] == line2End[1] ==> res * res == psd2(line2End[0], line2End[1], line1Start[0], line1Start[1], line1End[0], line1End[1])
+//@   ensures [cross] !(line1Start[0] == line1End[0] && line1Start[1] == line1End[1]) && !(line2Start[0] == line2End[0] && line2Start[1] == line2End[1]) && ssCross(line1Start[0], line1Start[1], line1End[0], line1End[1], line2Start[0], line2Start[1], line2End[0], line2End[1]) ==> res == 0.0
+//@   ensures [min4] !(line1Start[0] == line1End[0] && line1Start[1] == line1End[1]) && !(line2Start[0] == line2End[0] && line2Start[1] == line2End[1]) && !ssCross(line1Start[0], line1Start[1], line1End[0], line1End[1], line2Start[0], line2Start[1], line2End[0], line2End[1]) ==> res * res == ssMin4(line1Start[0], line1Start[1], line1End[0], line1End[1], line2Start[0], line2Start[1], line2End[0], line2End[1])
+//@   modifies nothing
